@@ -50,7 +50,9 @@ def run_demo(sid, m, d):
     if os.path.exists(runner):
         # the agent's own demonstration driver (several build configurations / processes): re-target it
         # from the agent's worktree to this scratch worktree and from its _seed directory to /verif/seeded
-        txt = open(runner).read().replace(f"/tmp/mut-{m['property']}", d).replace(f"_seed/{sid[len(m['property']):]}/", os.path.join(SEEDED, sid) + "/")
+        wt = m.get("origin_worktree", f"/tmp/mut-{m['property']}")
+        sub = m.get("origin_sub", sid[len(m["property"]):])
+        txt = open(runner).read().replace(wt, d).replace(f"_seed/{sub}/", os.path.join(SEEDED, sid) + "/")
         tmp = os.path.join(d, ".seed-demo-run.sh")
         open(tmp, "w").write(txt)
         rc, out = sh(["bash", tmp], cwd=d, timeout=2400)
@@ -84,6 +86,8 @@ def cmd_import(pid, x, demo_dir, src=None):
         if os.path.isfile(p): shutil.copy(p, dst)
     m = {"seed": sid, "property": pid, "demo_dir": demo_dir, "origin": "independent sub-agent given only the property text and a scratch worktree",
          "needs": "", "confirmed": None, "checks": {}}
+    if "/_seed/" in src:
+        m["origin_worktree"], m["origin_sub"] = src.split("/_seed/")[0], os.path.basename(src.rstrip("/"))
     if os.path.exists(meta_path(sid)):
         old = load(sid); old.update({k: v for k, v in m.items() if k in ("demo_dir",)}); m = old
     save(sid, m)
